@@ -721,8 +721,8 @@ theorem lexAll_toks_prefix (fuel : Nat) : ∀ (n : Nat) (r : Reader) (acc : List
 /-- the streaming reader `r1` (fast path in play) against a slice reader `r2` over the same remaining input -/
 theorem lexAll_vs_slice (n : Nat) : ∀ (r1 r2 : Reader) (pos : Nat) (bom : Bom) (d : Bytes) (f1 f2 : Nat) (acc : List Token),
     RelQ r1 pos bom d → RelQ r2 pos bom d → r2.cap = 0 → 2 * d.length + 4 ≤ f1 → 2 * d.length + 4 ≤ f2 →
-    ((lexAll f1 n r1 acc).out = .err .full ∧ (lexAll f1 n r1 acc).toks <+: (lexAll f2 n r2 acc).toks ∧
-      r1.cap ≠ 0 ∧ r1.cap ≤ d.length) ∨
+    (StopErr (lexAll f1 n r1 acc).out ∧ (lexAll f1 n r1 acc).toks <+: (lexAll f2 n r2 acc).toks ∧
+      ((lexAll f1 n r1 acc).out = .err .full → r1.cap ≤ d.length)) ∨
     ((lexAll f1 n r1 acc).toks = (lexAll f2 n r2 acc).toks ∧ (lexAll f1 n r1 acc).out = (lexAll f2 n r2 acc).out ∧
      ((lexAll f1 n r1 acc).out = .end_ →
       (lexAll f1 n r1 acc).final.position = pos + d.length ∧ (lexAll f2 n r2 acc).final.position = pos + d.length)) := by
@@ -733,14 +733,19 @@ theorem lexAll_vs_slice (n : Nat) : ∀ (r1 r2 : Reader) (pos : Nat) (bom : Bom)
     have o1 := nextOpt_specQ r1 pos bom d f1 h1 hf1
     have o2 := nextOpt_specQ r2 pos bom d f2 h2 hf2
     have o2 : OutQOk (nextOpt f2 r2) r2.cap pos bom d := by
-      rcases o2 with ⟨_, _, hne, _⟩ | h
+      rcases o2 with ⟨hne, _⟩ | h
       · exact absurd hz hne
       · exact h
-    rcases o1 with ⟨r', hfull, hne, hle, hwd⟩ | o1
+    rcases o1 with ⟨hne, r', ⟨hfull, hle, hwd⟩ | hio⟩ | o1
     · left
       have hl : (lexAll f1 (n + 1) r1 acc).toks = acc.reverse ∧ (lexAll f1 (n + 1) r1 acc).out = .err .full := by
         simp [lexAll, next, hfull]
-      refine ⟨hl.2, ?_, hne, by omega⟩
+      refine ⟨Or.inl hl.2, ?_, fun _ => by omega⟩
+      rw [hl.1]; exact lexAll_toks_prefix _ _ _ _
+    · left
+      have hl : (lexAll f1 (n + 1) r1 acc).toks = acc.reverse ∧ (lexAll f1 (n + 1) r1 acc).out = .err .io := by
+        simp [lexAll, next, hio]
+      refine ⟨Or.inr hl.2, ?_, fun h => by rw [hl.2] at h; simp at h⟩
       rw [hl.1]; exact lexAll_toks_prefix _ _ _ _
     unfold OutQOk at o1 o2
     have hsome := specStep_isSome (pos == 0) bom d
@@ -755,8 +760,8 @@ theorem lexAll_vs_slice (n : Nat) : ∀ (r1 r2 : Reader) (pos : Nat) (bom : Bom)
         simp only [lexAll, next, e1, e2]
         have hl : (d.drop adv).length ≤ d.length := by simp
         have := ih r1' r2' (pos + adv) b' (d.drop adv) f1 f2 (t :: acc) hr1 hr2 (by rw [hc2]; exact hz) (by omega) (by omega)
-        rcases this with ⟨ha, hb, hc, hd⟩ | this
-        · left; exact ⟨ha, hb, by rw [← hc1]; exact hc, by rw [← hc1]; omega⟩
+        rcases this with ⟨ha, hb, hc⟩ | this
+        · left; exact ⟨ha, hb, fun h => by have := hc h; rw [← hc1]; omega⟩
         · right
           refine ⟨this.1, this.2.1, ?_⟩
           intro he
